@@ -284,6 +284,54 @@ def run_retry(ctx):
                          % (n, n, e.__cause__, attempts), replay)
             ctx.case(("retry-per-decoration", n, workers))
 
+    # ---- the library's own helper calls (unpack, the implicit gathers) are calls too: a transient failure while iterating or
+    # hashing a user value is retried
+    class FlakyIterable:
+        def __init__(self, fails):
+            self.left = fails
+
+        def __iter__(self):
+            if self.left > 0:
+                self.left -= 1
+                raise ConnectionError("transient")
+            return iter((1, 2))
+
+    class FlakyHash:
+        def __init__(self, fails):
+            self.left = fails
+
+        def __hash__(self):
+            if self.left > 0:
+                self.left -= 1
+                raise ConnectionError("transient")
+            return 7
+
+        def __eq__(self, o):
+            return self is o
+    for n in (2, 3):
+        for fails in (1, n - 1, n):
+            for kind in ("unpack", "gather-set", "gather-dict-key"):
+                plan = uberjob.Plan()
+                if kind == "unpack":
+                    src = plan.call(lambda f=fails: FlakyIterable(f))
+                    a, b = plan.unpack(src, 2)
+                    out = plan.call(lambda x, y: x + y, a, b)
+                elif kind == "gather-set":
+                    k = plan.call(lambda f=fails: FlakyHash(f))
+                    out = plan.call(len, {k})
+                else:
+                    k = plan.call(lambda f=fails: FlakyHash(f))
+                    out = plan.call(len, {k: 1})
+                replay = {"where": "uberjob.run helper call " + kind, "attempts": n, "transient_failures": fails}
+                try:
+                    uberjob.run(plan, output=out, retry=n, progress=None, max_workers=1)
+                    oc = "ok"
+                except uberjob.CallError as e:
+                    oc = "failed: %r" % (e.__cause__,)
+                ctx.case(("retry-helper", n, fails, kind))
+                if (oc == "ok") != (fails < n):
+                    ctx.fail("retry:helper-call", "retry=%d, a %s whose input fails %d time(s) before succeeding: run %s" % (n, kind, fails, oc), replay)
+
     outs = core.coq_eval(header, terms, ty="list Z", shard=300, tag="retry")
     for (where, res, replay), o in zip(meta, outs):
         got = [int(x) for x in re.findall(r"-?\d+", o)]
